@@ -168,11 +168,11 @@ struct SB;
     template <>                                          \
     struct SB<N>                                         \
     {                                                    \
-        template <class R>                               \
-        static auto bind(R&& r)                          \
+        template <class R, class Fn>                     \
+        static auto apply(R&& r, Fn&& fn)                \
         {                                                \
             auto&& [__VA_ARGS__] = r;                    \
-            return std::forward_as_tuple(__VA_ARGS__);   \
+            return fn(__VA_ARGS__);                      \
         }                                                \
     };
 VERIF_SB(1, a)
@@ -196,6 +196,7 @@ struct Driver
 
     alignas(Vec) unsigned char vstore[NV + 1][sizeof(Vec)];
     int vstate[NV + 1] = {0, 0, 0, 0};  // 0 absent 1 live 2 moved-from
+    std::array<std::size_t, PL::NFIXED> vfixed[NV + 1] = {};  // FixedSize counts each vector was given (driver bookkeeping)
     int salt_counter = 0;
     Out* out = nullptr;
     long h = 0;
@@ -280,12 +281,17 @@ struct Driver
         ((s += (I ? "," : ""), s += field_json(cntgs::get<I>(r), vbase)), ...);
         return s + "]";
     }
-    template <class Tup, std::size_t... I>
-    static std::string fields_by_tuple(Tup&& t, std::uintptr_t vbase, std::index_sequence<I...>)
+    template <class Ref>
+    static std::string fields_by_binding(const Ref& r, std::uintptr_t vbase)
     {
-        std::string s = "[";
-        ((s += (I ? "," : ""), s += field_json(std::get<I>(t), vbase)), ...);
-        return s + "]";
+        return SB<N>::apply(r,
+                            [&](auto&&... x)
+                            {
+                                std::string s = "[";
+                                std::size_t i = 0;
+                                ((s += (i++ ? "," : ""), s += field_json(x, vbase)), ...);
+                                return s + "]";
+                            });
     }
 
     template <class Ref>
@@ -296,7 +302,7 @@ struct Driver
           << ",\"re\":" << clampl(static_cast<long>(reinterpret_cast<std::uintptr_t>(r.data_end()) - vbase))
           << ",\"itd\":" << clampl(static_cast<long>(reinterpret_cast<std::uintptr_t>(itd) - vbase)) << ",\"f\":";
         if (use_sb)
-            o << fields_by_tuple(SB<N>::bind(r), vbase, std::make_index_sequence<N>{});
+            o << fields_by_binding(r, vbase);
         else
             o << fields_by_get(r, vbase, std::make_index_sequence<N>{});
         o << "}";
@@ -431,7 +437,16 @@ struct Driver
 
     // ---------------------------------------------------------------- arguments
     template <std::size_t I>
-    auto make_arg(int tag, int salt, const std::vector<int>& vs)
+    std::size_t fixed_count_of(int v)
+    {
+        if constexpr (PL::template Info<I>::kind == FIXED)
+            return vfixed[v][PL::template fixed_index<I>()];
+        else
+            return 0;
+    }
+
+    template <std::size_t I>
+    auto make_arg(int v, int tag, int salt, const std::vector<int>& vs)
     {
         using T = typename PL::template T<I>;
         constexpr int kind = PL::template kind<I>();
@@ -446,7 +461,7 @@ struct Driver
         else
         {
             std::vector<T> r;
-            const std::size_t n = kind == FIXED ? fixed_count<I>() : static_cast<std::size_t>(vs[I]);
+            const std::size_t n = kind == FIXED ? fixed_count_of<I>(v) : static_cast<std::size_t>(vs[I]);
             r.reserve(n);
             for (std::size_t j = 0; j < n; ++j)
                 r.push_back(VT<T>::make(val_of(tag, salt, static_cast<int>(I) + 1, static_cast<int>(j) + 1)));
@@ -454,38 +469,46 @@ struct Driver
         }
     }
     template <std::size_t... I>
-    void emplace(Vec& vec, int tag, int salt, const std::vector<int>& vs, std::index_sequence<I...>)
+    void emplace(int v, Vec& vec, int tag, int salt, const std::vector<int>& vs, std::index_sequence<I...>)
     {
-        auto args = std::make_tuple(make_arg<I>(tag, salt, vs)...);
+        auto args = std::make_tuple(make_arg<I>(v, tag, salt, vs)...);
         ledger().take_sub();  // building the arguments is not part of the operation
         std::apply([&](auto&... a) { vec.emplace_back(a...); }, args);
     }
 
     void construct(int v, std::size_t cap, std::size_t bud, int al)
     {
+        vfixed[v] = Cfg::fixed;
+        construct_at(vstore[v], cap, bud, al, Cfg::fixed);
+    }
+
+    static void construct_at(void* where, std::size_t cap, std::size_t bud, int al,
+                             const std::array<std::size_t, PL::NFIXED>& fx)
+    {
         VAlloc alloc(al);
         if constexpr (PL::all_plain)
         {
 #ifdef VERIF_NO_PLAIN_ALLOC_CTOR
             (void)alloc;
-            new (vstore[v]) Vec(cap);
+            new (where) Vec(cap);
 #else
-            new (vstore[v]) Vec(cap, alloc);
+            new (where) Vec(cap, alloc);
 #endif
         }
         else if constexpr (PL::all_fixed)
         {
-            new (vstore[v]) Vec(cap, Cfg::fixed, alloc);
+            new (where) Vec(cap, fx, alloc);
         }
         else if constexpr (PL::all_varying)
         {
-            new (vstore[v]) Vec(cap, bud, alloc);
+            new (where) Vec(cap, bud, alloc);
         }
         else
         {
-            new (vstore[v]) Vec(cap, bud, Cfg::fixed, alloc);
+            new (where) Vec(cap, bud, fx, alloc);
         }
         (void)bud;
+        (void)fx;
     }
 
     // ---------------------------------------------------------------- one operation
@@ -496,6 +519,8 @@ struct Driver
         int ret = -1;
         long parcap = -1;
         int salt = 0;
+        long fresh = 0;
+        bool want_fresh = false;
         bool thrown = false;
         std::string why;
         ledger().take_sub();
@@ -510,6 +535,7 @@ struct Driver
             {
                 new (vstore[v]) Vec();
                 vstate[v] = 1;
+                vfixed[v] = {};
             }
             else if (op.n == "Destroy")
             {
@@ -524,7 +550,7 @@ struct Driver
                     salt = ++salt_counter;
                     std::vector<int> vs(op.a.begin() + 1, op.a.end());
                     vs.push_back(0);
-                    emplace(V(v), op.a[0], salt, vs, std::make_index_sequence<N>{});
+                    emplace(v, V(v), op.a[0], salt, vs, std::make_index_sequence<N>{});
                 }
             }
             else if (op.n == "PopBack")
@@ -547,7 +573,9 @@ struct Driver
             }
             else if (op.n == "Reserve")
             {
+                const bool grows = static_cast<std::size_t>(op.a[0]) > V(v).capacity();
                 V(v).reserve(static_cast<std::size_t>(op.a[0]), static_cast<std::size_t>(op.a[1]));
+                if (grows) want_fresh = true;
             }
 #ifndef VERIF_NO_COPY
             else if (op.n == "CopyConstruct")
@@ -555,6 +583,7 @@ struct Driver
                 const Vec& src = V(op.a[0]);
                 new (vstore[v]) Vec(src);
                 vstate[v] = 1;
+                vfixed[v] = vfixed[op.a[0]];
                 parcap = static_cast<long>(V(v).capacity());
             }
             else if (op.n == "CopyAssign")
@@ -562,6 +591,7 @@ struct Driver
                 const Vec& src = V(op.a[0]);
                 V(v) = src;
                 vstate[v] = 1;
+                vfixed[v] = vfixed[op.a[0]];
                 parcap = static_cast<long>(V(v).capacity());
             }
 #endif
@@ -569,6 +599,7 @@ struct Driver
             {
                 new (vstore[v]) Vec(std::move(V(op.a[0])));
                 vstate[v] = 1;
+                vfixed[v] = vfixed[op.a[0]];
                 vstate[op.a[0]] = 2;
             }
             else if (op.n == "MoveAssign")
@@ -577,6 +608,7 @@ struct Driver
                 V(v) = std::move(src);
                 if (op.a[0] != v)
                 {
+                    vfixed[v] = vfixed[op.a[0]];
                     vstate[v] = 1;
                     vstate[op.a[0]] = 2;
                     parcap = static_cast<long>(V(v).capacity());
@@ -587,6 +619,7 @@ struct Driver
                 using std::swap;
                 swap(V(v), V(op.a[0]));
                 std::swap(vstate[v], vstate[op.a[0]]);
+                std::swap(vfixed[v], vfixed[op.a[0]]);
             }
             else
             {
@@ -605,10 +638,21 @@ struct Driver
         }
         std::string sub = ledger().take_sub();
         ledger().check_all_canaries();
+        if (want_fresh && !thrown)
+        {
+            // what a freshly constructed vector with the same capacity and payload budget consumes (C05), observed
+            alignas(Vec) unsigned char tmp[sizeof(Vec)];
+            construct_at(tmp, static_cast<std::size_t>(op.a[0]), static_cast<std::size_t>(op.a[1]),
+                         V(v).get_allocator().inst, vfixed[v]);
+            Vec* t = std::launder(reinterpret_cast<Vec*>(tmp));
+            fresh = static_cast<long>(t->memory_consumption());
+            t->~Vec();
+            ledger().take_sub();
+        }
         std::ostringstream o;
         o << "{\"e\":\"op\",\"h\":" << h << ",\"s\":" << step << ",\"n\":\"" << op.n << "\",\"v\":" << v << ",\"a\":[";
         for (std::size_t i = 0; i < op.a.size(); ++i) o << (i ? "," : "") << op.a[i];
-        o << "],\"par\":{\"salt\":" << salt << ",\"cap\":" << parcap << "},\"thrown\":" << (thrown ? 1 : 0)
+        o << "],\"par\":{\"salt\":" << salt << ",\"cap\":" << parcap << ",\"fresh\":" << fresh << "},\"thrown\":" << (thrown ? 1 : 0)
           << ",\"ret\":" << ret << ",\"canary\":" << (ledger().canary_dead ? 1 : 0) << ",\"sub\":[" << sub
           << "],\"obs\":" << all_obs() << "}";
         ledger().take_sub();  // projection must not produce events; drop defensively
